@@ -23,7 +23,10 @@ class C06(SessionCheck):
         out = []
         all_ops = [[j, p] for j, job in enumerate(spec) for p in range(len(job))]
         for ev in events:
-            if ev[0] == 7 and out and out[-1][0] == 0 and all_ops and rng.random() < 0.4:
+            if ev[0] == 7 and out and out[-1][0] == 0 and rng.random() < 0.3:
+                # a dispatching rule evaluated BEFORE anything else is asked in the new state
+                out.append([9, rng.randrange(7)])
+            if ev[0] == 7 and out and out[-1][0] in (0, 9) and all_ops and rng.random() < 0.4:
                 # a look-ahead BEFORE anything else is asked in the new state
                 out.append([1, 15, [list(rng.choice(all_ops)) for _ in range(rng.randint(1, 2))]])
             out.append(ev)
